@@ -200,10 +200,13 @@ func matNode(b *Behaviour, f, n int, d NodeDef, opts *MatOpts) M {
 		node["exits"] = exitsFor(f, n, d.D1)
 	case "failact":
 		// the failing action is not the last one of its node: what follows it (a result, a sub-flow that exists) is not executed
-		acts = append(acts, M{"uuid": actionUUID(f, n, 1), "type": "enter_flow", "flow": M{"uuid": missingFlowUUID, "name": "Missing"}},
-			M{"uuid": actionUUID(f, n, 2), "type": "set_run_result", "name": "after_failure", "value": "x", "category": "Never"},
-			M{"uuid": actionUUID(f, n, 3), "type": "enter_flow", "flow": M{"uuid": leafFlowUUID, "name": "Leaf"}})
-		node["exits"] = exitsFor(f, n, 0)
+		// ... or it IS the last one (every other node, by content): then nothing on the node notices the failure but the loop must
+		acts = append(acts, M{"uuid": actionUUID(f, n, 1), "type": "enter_flow", "flow": M{"uuid": missingFlowUUID, "name": "Missing"}})
+		if (n+d.D1)%2 == 0 {
+			acts = append(acts, M{"uuid": actionUUID(f, n, 2), "type": "set_run_result", "name": "after_failure", "value": "x", "category": "Never"},
+				M{"uuid": actionUUID(f, n, 3), "type": "enter_flow", "flow": M{"uuid": leafFlowUUID, "name": "Leaf"}})
+		}
+		node["exits"] = exitsFor(f, n, d.D1)
 	case "split":
 		acts = append(acts, M{"uuid": actionUUID(f, n, 1), "type": "set_contact_field", "field": M{"key": "vc", "name": "Vc"}, "value": "@(default(fields.vc, 0) + 1)"})
 		r := switchRouter(f, n, "@(word(trigger.params.plan, fields.vc - 1))", d.Dflt, false)
